@@ -101,6 +101,10 @@ def step (st : State) (toks : List String) : State × String :=
       let cs := if ran then (match r with
         | .panic => "-"
         | _ => let used := rest.head?.getD "-"; used) else "-"
+      let n := match lvl with | .one => 1 | .two => 2 | .three => 3 | _ => 0
+      if ran && !Selector.choiceValid st.actor.localDc n st.actor.total st.actor.dcs choice then
+        ({ st with actor := a' }, s!"bad-choice {rest.head?.getD "-"}: not a possible pick of n distinct eligible data centres")
+      else
       ({ st with actor := a' }, showRes r cs)
     | _, _ => (st, "bad-op")
   | ["sel-expire"] => ({ st with actor := { st.actor with cache := [] } }, "ok")
